@@ -11,7 +11,8 @@
 
 Require Import Field Ring Arith Lia List Bool ZArith QArith Qcanon.
 From TK Require Import Mat_Sums Mat_Core Mat_Qc Mat_EigSelect Spectral_KyFan
-     Pencil_Model Pencil_Spec Pencil_Proof_Sums Pencil_Proof Pencil_Proof_Rot Pencil_Proof_KyFan.
+     Pencil_Model Pencil_Spec Pencil_Proof_Sums Pencil_Proof Pencil_Proof_Rot Pencil_Proof_KyFan
+     Pencil_Proof_Unique.
 Import ListNotations.
 
 Local Open Scope F_scope.
@@ -277,3 +278,40 @@ Qed.
 Definition eQ : mat Qc := mof [[qz 0]; [qz 1]].
 Lemma eQ_orthonormal : meq 1 1 (mmul 2 (mtrans eQ) (mmul 2 (npe_rhs 2 eX) eQ)) mI.
 Proof. apply meq_by_compute. vm_compute. reflexivity. Qed.
+
+(* ---------------- compute_mean + project on lists (exact stream J) ---------------- *)
+Theorem run_project_spec N D d Xl Pl ml Yl :
+  run_project N D d Xl Pl = Ok (ml, Yl) ->
+  N <> 0%nat /\
+  ml = vtab D (compute_mean (mof Xl) N) /\
+  Yl = mtab N d (fun s j => dot D (mcol (mof Pl) j) (vsub (fvec (mof Xl) s) (compute_mean (mof Xl) N))) /\
+  (forall j, (j < d)%nat -> sumn N (fun s => mof Yl s j) = 0).
+Proof.
+  unfold run_project.
+  destruct (negb (wf_matb D N Xl)); [discriminate|].
+  destruct (negb (wf_matb D d Pl)); [discriminate|].
+  destruct (Nat.eqb N 0) eqn:EN; [discriminate|]. apply Nat.eqb_neq in EN.
+  intros H. injection H as <- <-.
+  assert (EY : meq N d (project D (mof Pl) (vof (vtab D (compute_mean (mof Xl) N))) (mof Xl))
+                   (project D (mof Pl) (compute_mean (mof Xl) N) (mof Xl))).
+  { intros s j _ _. apply project_ext_mean. intros f Hf. apply vof_vtab. assumption. }
+  split; [assumption|]. split; [reflexivity|]. split.
+  - apply mtab_ext. exact EY.
+  - intros j Hj.
+    rewrite (sumn_ext N _ (fun s => project D (mof Pl) (compute_mean (mof Xl) N) (mof Xl) s j)).
+    + apply embedding_columns_sum_to_zero. apply Qc_of_nat_neq0. assumption.
+    + intros s Hs. rewrite mof_mtab by assumption. apply EY; assumption.
+Qed.
+
+Lemma e_full_contract0 : full_contract0 2 (npe_lhs 2 eX eW) (npe_rhs 2 eX) eV elam.
+Proof. repeat split; apply meq_by_compute; vm_compute; reflexivity. Qed.
+
+Lemma e_simple : forall t, (t < 2)%nat -> t <> 0%nat -> elam t <> elam 0%nat.
+Proof.
+  intros t Ht Hne. destruct t as [|[|t]]; try lia.
+  apply Qc_neq_by_compute. vm_compute. reflexivity.
+Qed.
+
+Lemma e_run_project :
+  exists ml Yl, run_project 2 2 1 [[qz 1; qz 3]; [qz 2; qz (-1)]] [[qfrac 1 2]; [qz 4]] = Ok (ml, Yl).
+Proof. eexists. eexists. vm_compute. reflexivity. Qed.
